@@ -71,6 +71,31 @@ def cases(seed, tier):
         c = grammar.schedule(rng, case, dv, n)
         c["variant"] = j
         yield c
+    # two things pending at once: a status nobody waits for yet fails while a long message of the wrapped plan is in
+    # flight, then a stop / abort arrives.  Whichever of the two the plan is told about, it is told once: the
+    # cleanup that follows is not hit by the other one afterwards
+    motors = gen.names(specs, "motor", "pmotor")
+    if motors:
+        m = motors[0]
+        for j in range(2):
+            g, g2 = pg.group(), pg.group()
+            prog2 = {
+                "form": rng.choice(FORMS[:3] + ["contingency"]),
+                "body": [msg(S, "set", m, 4.0, group=g), msg(S, "sleep", None, 1.0), msg(S, "wait", None, group=g), msg(S, "null")],
+                "final": [msg(S, "null"), msg(S, "sleep", None, 0.2), msg(S, "null")],
+            }
+            if prog2["form"] == "contingency":
+                prog2["auto_raise"] = True
+            c = copy.deepcopy(case)
+            c["variant"] = f"failed-status-pending-then-terminator-{j}"
+            c["prog"] = prog2
+            c["script"] = [{"do": "call", "plan": c["pre"] + [render(prog2, wrapper=True)] + c["post"], "main": True}]
+            for d_ in c["devices"].values():
+                d_.pop("faults", None)
+            c["devices"][m]["velocity"] = 1.0
+            c["devices"][m]["faults"] = {"set#0": {"kind": "status_fail", "exc": "RuntimeError", "delay": rng.choice([0.1, 0.3])}}
+            c["script"][0]["inject"] = [{"id": "t0", "at": {"time": rng.choice([0.5, 0.7])}, "do": rng.choice(["abort", "stop"])}]
+            yield c
 
 
 def render(prog, wrapper):
@@ -106,9 +131,58 @@ def _keep(x):
     return not (x[0] == "plan" and x[1] in ("except", "else", "finally", "finally_skipped_on_close", "wrap_ret"))
 
 
+def _sites(nodes):
+    out = set()
+    for n in nodes or []:
+        if n.get("site") is not None:
+            out.add(n["site"])
+        for k in ("body", "finally", "else", "final", "except"):
+            if isinstance(n.get(k), list):
+                out |= _sites(n[k])
+        for h in n.get("handlers") or []:
+            out |= _sites(h.get("body"))
+    return out
+
+
+def stale_exception_in_cleanup(res):
+    """Absolute rule (the differential cannot see an engine that treats both renderings alike): once the cleanup
+    plan has started, an exception is thrown into it only for something that happened after it started (a device
+    operation of the cleanup failing, a status finishing unsuccessfully, a new request).  A failure or request
+    from before - the very one the cleanup is running for - is not delivered a second time, in the middle of it."""
+    fin = _sites(res.case["prog"].get("final"))
+    if not fin:
+        return []
+    v = View(res)
+    evs = v.evs
+    start = next((e.seq for e in evs if e.kind == "plan" and e.d["what"] == "yield" and e.d.get("site") in fin), None)
+    if start is None:
+        return []
+    for t in evs:
+        if t.kind == "plan" and t.d["what"] == "thrown" and t.d.get("site") in fin and t.seq > start:
+            cause = any(
+                start < e.seq < t.seq
+                and (
+                    (e.kind == "dev" and e.d.get("fault"))
+                    or (e.kind == "status" and not e.d["ok"])
+                    or e.kind == "inject_begin"
+                    or (e.kind == "state" and e.d["new"] in ("stopping", "aborting", "halting", "pausing", "suspending"))
+                    or (e.kind == "call_begin" and e.d["api"] != "call")
+                    or (e.kind == "cmd" and e.d["end"] == "error")
+                )
+                for e in evs
+            )
+            if not cause:
+                return [V("stale-exception-thrown-into-cleanup", f"{t.d['exc']} was thrown into the cleanup plan at site {t.d['site']} although nothing failed and nothing was requested since the cleanup started", exc=t.d["exc"])]
+            break
+    return []
+
+
 def check(res):
     if res.aborted:
         return []
+    own = stale_exception_in_cleanup(res)
+    if own:
+        return own
     return grammar.differential(
         res, reference_case(res.case), "differs-from-native-try:" + res.case["prog"]["form"], "wrapper vs native try/except/else/finally", site_filter=_keep
     )
